@@ -15,6 +15,7 @@ import random
 
 from engine.interp import (Const, Sym, SymStr, ListV, TupleV, DictV, SetV, ObjV, TypeV, Prim, PartialV, FuncV, NONE, Undecided, Raised, PathLimit, prov)
 from engine.loader import AnalysisError, ClassInfo
+from engine import roles as _roles
 from . import shape as S
 
 #            name: bases
@@ -76,9 +77,9 @@ class World:
         self.it = Interp(repo, prims, max_paths=16)
         self.it.concrete_context = True
         self.it.concrete_partial = True
-        self.it.concrete_classes = {'PrettyContext', '_CommentedValue', '_TrailingCommentedValue'}
+        self.it.concrete_classes = {'PrettyContext', _roles.name(repo, 'commented_cls'), _roles.name(repo, 'trailing_cls')}
         self.it.foreign_attr = {'pretty_dispatch': self.dispatch_attr}
-        self.it.globals_store[(self.m.name, 'pretty_dispatch')] = Prim('pretty_dispatch')
+        self.it.globals_store[(self.m.name, _roles.name(repo, 'dispatch'))] = Prim('pretty_dispatch')
         # the class lattice
         self.cinfo = ClassInfo(None, _CLS_NODE[0])
         self.iinfo = ClassInfo(None, _CLS_NODE[1])
@@ -94,7 +95,7 @@ class World:
             c.attrs.update({'__module__': Const('lattice'), '__qualname__': Const(QUALNAME[name]), '__name__': Const(name),
                             '__mro__': TupleV([self.classes[x] for x in mros[name]] + [self.obj])})
         self.mros = mros
-        self.base = self.it.global_name(self.m, '_BASE_DISPATCH')
+        self.base = self.it.global_name(self.m, _roles.name(repo, 'base_dispatch'))
         # every module-level mutable container of the module is registry state (restored between histories); the deferred store is
         # the dict the decorator writes string keys into - found by behaviour, not by name (see find_deferred)
         self.state = []
@@ -241,7 +242,7 @@ class World:
     def print_(self, cname, trailing=False):
         v = self.instance(cname)
         if trailing:
-            v = self.it.construct(TypeV('_TrailingCommentedValue'), [v, Const('note')], {}, None)
+            v = self.it.construct(TypeV(_roles.name(self.repo, 'trailing_cls')), [v, Const('note')], {}, None)
         return self._run('pretty_python_value', [v, self.ctx()], {})
 
     # -- observation
